@@ -165,6 +165,17 @@ def q_query(tier, K=3, frame_n=576, mtu_min=None, name="query"):
                 no_std_checks=True, desc="Query class through real parseFrame/parseQuery: QueryResp oracle (count, more flag, descriptors, addressing, seq), post-state list, ledger")
 
 
+def q_query_boundary(tier):
+    """small-MTU model queries at every residue class that matters for the capacity arithmetic:
+    (MTU-34) % 20 == 0 (exact fit), MTU % 20 in {12,13}, generic - list longer than the capacity"""
+    return [q_query(tier, 5, frame_n=m, name="query_smallmtu") for m in (92, 93, 94)]
+
+
+def q_emit_boundary(valid_kinds=True):
+    """small-MTU model queries for the descriptor-walk bound: (MTU-34) % 14 in {12, 13, 0, 1}"""
+    return [q_emit_loop(m, valid_kinds=valid_kinds) for m in (60, 61, 62, 63)]
+
+
 def q_probe(tier, K=3):
     return blkq("blk_probe_K%d" % K, "h_probe", live=["parseProbe"], K=K, unwind=K + 4, no_std_checks=True,
                 desc="Probe/Train class: record once iff addressed to own MAC and key new; earlier observations intact; no send")
@@ -189,15 +200,16 @@ def q_sweep(tier, K=2):
               "Query/Probe issued in any state; a Query is answered regardless of its sender (C05 leaves strangers' commands unconstrained)"])
 def c07(tier, seed):
     qs = [q_query(tier, 3), q_probe(tier, 3), q_reset(tier, 3),
-          q_query(tier, 5, frame_n=100, name="query_smallmtu")]
+          q_query(tier, 5, frame_n=100, name="query_smallmtu")] + q_query_boundary(tier)
     if tier == "thorough":
-        qs += [q_query(tier, 29), q_probe(tier, 8), q_query(tier, 3, frame_n=1500), q_query(tier, 3, frame_n=640, mtu_min=576, name="query_symmtu")]
+        qs += [q_query(tier, 29), q_probe(tier, 8), q_query(tier, 3, frame_n=1500), q_query(tier, 3, frame_n=640, mtu_min=576, name="query_symmtu"),
+               q_query(tier, 5, frame_n=113, mtu_min=94, name="query_smallsym")]
     return qs
 
 
 @prop("C05", ["commands (Emit/Query/QueryLargeTlv) are covered under the property's domain restriction (sender is the active mapper or none is active)"])
 def c05(tier, seed):
-    return [q_sweep(tier), q_reset(tier, 2), q_other(tier, 2)]
+    return [q_sweep(tier), q_reset(tier, 2), q_other(tier, 2), q_discover(1, 1), q_qltlv("alltypes_576"), q_query(tier, 2), q_emit_loop(576), q_probe(tier, 2)]
 
 
 def q_discover(h, s, K=2, big_endian=False, frame_n=576):
@@ -241,7 +253,7 @@ def q_emit_loop(frame_n=576, valid_kinds=True, K=2):
     maxd = (frame_n - 34) // 14
     rep = unreach("parseEmit"); rep["sendProbeMsg"] = "rec_sendProbeMsg"
     return blkq("blk_emit_loop_%d%s" % (frame_n, "" if valid_kinds else "_anykind"), "h_emit_loop", K=K, frame_n=frame_n, replace=rep,
-                defines=["EMIT_VALID_KINDS"] if valid_kinds else [], unwind=maxd + 2, safety_for=("C01", "C06", "C18"),
+                defines=["EMIT_VALID_KINDS"] if valid_kinds else [], unwind=max(maxd + 2, 16), safety_for=("C01", "C06", "C18"),
                 bounds={"declared count": "0..0xFFFF", "descriptors": "all %d slots of the frame symbolic%s" % (maxd, ", kinds in {0,1}" if valid_kinds else ", any kind byte")},
                 desc="real parseFrame+parseEmit descriptor walk with recording sendProbeMsg stub; pointer checks on every descriptor read")
 
@@ -261,7 +273,7 @@ def q_emit_full(n=3, K=2):
 @prop("C06", ["Emit issued by the active mapper or while none is active (property's domain); descriptor kinds in {0,1} in the functional queries (other kinds: safety only); transmit succeeds",
               "decomposition: loop query guarantees the argument/ack relation that the single-call query assumes (both over real code)"])
 def c06(tier, seed):
-    qs = [q_emit_loop(576), q_emit_send(), q_emit_full(3)]
+    qs = [q_emit_loop(576), q_emit_send(), q_emit_full(3)] + q_emit_boundary()
     if tier == "thorough":
         qs += [q_emit_loop(1500), q_emit_full(12)]
     return qs
@@ -326,6 +338,8 @@ def c01_block_queries(frame_n=576, K=2, hello_pairs=((0, 0), (40, 40))):
 def c01(tier, seed):
     qs = c01_block_queries(576)
     qs.append(q_emit_loop(576, valid_kinds=False))
+    qs += q_emit_boundary(valid_kinds=False)
+    qs += [q_safety_class(6, ["parseQuery"], "query", K=5, frame_n=m) for m in (92, 93, 94)]
     qs.append(q_emit_send())
     nst = (576 - 36) // 6
     b = {"frame": "576 arbitrary bytes", "table": "16 arbitrary entries or none", "station count": "0..65535"}
@@ -466,7 +480,7 @@ def c02(tier, seed):
     qs = [q_query(tier, 3), q_query(tier, 5, frame_n=100, name="query_smallmtu"), q_probe(tier, 2), q_reset(tier, 2), q_other(tier, 2), q_sweep(tier),
           q_discover(0, 0), q_discover(33, 40), q_emit_send(), q_emit_full(3), q_emit_loop(576),
           q_qltlv("alltypes_576"), q_qltlv("alltypes_symmtu", frame_n=9216, mtu_min=576), q_query(tier, 3, frame_n=640, mtu_min=576, name="query_symmtu")]
-    qs += q_rel(0)
+    qs += q_rel(0) + q_query_boundary(tier) + q_emit_boundary()
     if tier == "thorough":
         qs += [q_discover(h, s) for h in LEN_EDGE for s in (1, 31)] + [q_query(tier, 29)]
     return qs
